@@ -82,6 +82,16 @@ Lemma spec_ok_construct c tpl g :
   (spec_ok c (RCons g) = true <-> (forall t, In t (fill_template tpl (spec_rows c)) <-> In t g)).
 Proof. intros F. unfold spec_ok. rewrite F. cbn. apply graph_seteqb_iff. Qed.
 
+Lemma perm_filter_map {A B} (f : B -> bool) (h : A -> B) L L' :
+  Permutation L L' -> Permutation (filter f (map h L)) (filter f (map h L')).
+Proof.
+  induction 1; cbn.
+  - constructor.
+  - destruct (f (h x)); [now constructor|assumption].
+  - destruct (f (h x)), (f (h y)); try reflexivity. apply perm_swap.
+  - etransitivity; eauto.
+Qed.
+
 (* permuted rows give the same answer *)
 Lemma answer_perm f L L' : Permutation L L' -> obs_eqb (answer f L) (answer f L') = true.
 Proof.
@@ -94,6 +104,7 @@ Proof.
     split; intros [m [I H]]; exists m; (split; [|exact H]).
     + eapply Permutation_in; eauto.
     + eapply Permutation_in; [symmetry; exact P|exact I].
+  - apply msol_eqb_perm. now apply perm_filter_map.
 Qed.
 
 (* ---- compositional facts ---- *)
@@ -132,7 +143,7 @@ Definition w1 := W (Project (Join true (BGP [(Vr 1, Tm 4, Vr 2)]) (Extend (Some 
 (* F-C04-2  { ?1 p ?2 . { ?3 q ?4 MINUS { b p c } } } *)
 Definition w2 := W (Project (Join true (BGP [(Vr 1, Tm 4, Vr 2)]) (Minus (BGP [(Vr 3, Tm 5, Vr 4)]) (BGP [(Tm 2, Tm 4, Tm 3)]))) [1; 2; 3; 4])
                    [(1, 4, 2); (1, 5, 3); (2, 4, 3)].
-(* F-C04-3  { ?1 p ?2 . { ?1 p ?3 } VALUES ?4 { 1 1 } } *)
+(* F-C04-3 (repaired by 3512ad97; the witness now passes, see w3_repaired)  { ?1 p ?2 . { ?1 p ?3 } VALUES ?4 { 1 1 } } *)
 Definition w3 := W (Project (Join false (Join true (BGP [(Vr 1, Tm 4, Vr 2)]) (BGP [(Vr 1, Tm 4, Vr 3)])) (Values [[(4, 11)]; [(4, 11)]])) [1; 2; 3; 4])
                    [(1, 4, 2)].
 (* F-C04-4  { ?1 p ?2 . { SELECT ?2 { ?1 q ?2 } } } *)
@@ -157,6 +168,10 @@ Definition w9 := W (Project (Filter false (Some [2; 3]) (ENot (ECmp OpEq (EVar 2
 Definition refuted (c : case) : Prop := spec_ok c (model_obs c) = false /\ N.eqb (kf c) 0 = false.
 
 Lemma findings_refuted :
-  refuted w1 /\ refuted w2 /\ refuted w3 /\ refuted w4 /\ refuted w5 /\ refuted w6 /\ refuted w7 /\ refuted w9.
+  refuted w1 /\ refuted w2 /\ refuted w4 /\ refuted w5 /\ refuted w6 /\ refuted w7 /\ refuted w9.
 Proof. repeat split; vm_compute; reflexivity. Qed.
+
+(* the witness of the repaired F-C04-3: two rows, as the algebra says; no trigger *)
+Lemma w3_repaired : spec_ok w3 (model_obs w3) = true /\ kf w3 = 0 /\ length (spec_rows w3) = 2%nat.
+Proof. vm_compute. repeat split; reflexivity. Qed.
 
